@@ -355,7 +355,10 @@ func c19ChildMain() {
 					for k := 0; k < nops; k++ {
 						oi := rng.Intn(len(o.ops))
 						t0 := atomic.AddInt64(&clock, 1)
-						got := o.call(o.ops[oi])
+						var got string
+						if p := tryP(func() { got = o.call(o.ops[oi]) }); p != "" {
+							got = "PANIC " + p
+						}
 						t1 := atomic.AddInt64(&clock, 1)
 						ivs[gi] = append(ivs[gi], iv{oi, t0, t1})
 						if got != base[o.ops[oi]] {
